@@ -31,8 +31,15 @@ type verifC03Frame struct {
 	resp *storepb.SeriesResponse
 }
 
+// a stream error that wraps io.EOF is still a failure of the stream
+type verifC03WrappedEOF struct{}
+
+func (verifC03WrappedEOF) Error() string { return "transport is closing: EOF" }
+func (verifC03WrappedEOF) Unwrap() error { return io.EOF }
+
 type verifC03Store struct {
 	storepb.StoreClient
+	failErr  error
 	name     string
 	frames   []*storepb.SeriesResponse
 	openErr  bool
@@ -63,6 +70,9 @@ type verifC03Stream struct {
 
 func (c *verifC03Stream) Recv() (*storepb.SeriesResponse, error) {
 	if c.s.failAt >= 0 && c.i >= c.s.failAt {
+		if c.s.failErr != nil {
+			return nil, c.s.failErr
+		}
 		return nil, errors.New("stream broken")
 	}
 	if c.i >= len(c.s.frames) {
@@ -177,6 +187,10 @@ func verifC03Run(nst, maxSeries, maxChunks, maxBatch int, failures bool) {
 			case 2:
 				st.failAt = verifIntRange(verifName("failAfter", k), 0, len(st.frames))
 				fails = true
+				if verifIntRange(verifName("failWrapsEOF", k), 0, 1) == 1 {
+					st.failErr = verifC03WrappedEOF{}
+					verifReach("failure-wrapping-eof")
+				}
 			}
 		}
 		if fails {
@@ -200,7 +214,7 @@ func verifC03Run(nst, maxSeries, maxChunks, maxBatch int, failures bool) {
 	req := &storepb.SeriesRequest{
 		MinTime: math.MinInt64, MaxTime: math.MaxInt64,
 		Matchers:          []storepb.LabelMatcher{{Type: storepb.LabelMatcher_NEQ, Name: "a", Value: ""}},
-		ResponseBatchSize: int64(verifIntRange("batchSize", 0, maxBatch)),
+		ResponseBatchSize: int64(verifIntRange("batchSize", min(verifParam("BATCHMIN", 0), maxBatch), maxBatch)),
 	}
 	if abort {
 		req.PartialResponseStrategy = storepb.PartialResponseStrategy_ABORT
